@@ -97,6 +97,42 @@ fn case_typed<S: Spec>(sub: &str, id: u64, forced: Option<(usize, bool)>, first_
             }
         }
     }
+    // the snapshot is exactly its own bytes: a strict reader accepts it, and two
+    // snapshots written into one stream come back as the same two generators
+    r.eval();
+    match S::from_bincode_strict(&bytes).unwrap() {
+        Ok(g) => rest.push(("bincode_strict", g)),
+        Err(e) => {
+            let mut d = desc.clone();
+            d["error"] = json!(e);
+            r.violation(format!("{}:deserialize_failed:bincode_strict", S::NAME), sub, id, d);
+            return;
+        }
+    }
+    {
+        let other = S::from_seed(&vec![0x33u8; S::SEED_LEN]);
+        match S::pair_roundtrip(&orig, &other).unwrap() {
+            Ok((g1, mut g2)) => {
+                rest.push(("bincode_pair_first", g1));
+                let mut o2 = other.clone();
+                for k in 0..6 {
+                    r.eval();
+                    if apply_ext::<S>(&mut g2, &Op::U32) != apply_ext::<S>(&mut o2, &Op::U32) {
+                        let mut d = desc.clone();
+                        d["op_index"] = json!(k);
+                        r.violation(format!("{}:second_snapshot_in_stream_diverges", S::NAME), sub, id, d);
+                        return;
+                    }
+                }
+            }
+            Err(e) => {
+                let mut d = desc.clone();
+                d["error"] = json!(e);
+                r.violation(format!("{}:deserialize_failed:bincode_pair", S::NAME), sub, id, d);
+                return;
+            }
+        }
+    }
     // re-serialising the restored generator gives the same image
     r.eval();
     if S::bincode(&rest[0].1).unwrap() != bytes {
